@@ -187,16 +187,34 @@ struct CounterModel {
 pub fn case_seq(bytes: &[u8], _s: &[u8], ctx: &mut Ctx) -> Result<(), Fail> {
     let mut src = Source::new(bytes);
     let mut case = decode_seq(&mut src);
+    // a quarter of the cases give the two increment-only counters ONE name and different label sets (siblings): what
+    // is kept per counter (delta base, idle state) must be kept per key, not per name (drawn last)
+    let siblings = src.below(4) == 3;
     let generated = case.steps.len();
     case.steps.push(SStep::Flush);
     case.steps.push(SStep::Flush);
     case.steps.push(SStep::Flush);
-    ctx.case(&case);
+    ctx.case(&(&case, siblings));
+    if siblings {
+        ctx.class("two-counters-share-a-name");
+    }
     let c = &case.cfg;
     let mut driver = mk_driver(c);
     let rec = driver.recorder();
     let own = vec![("k".to_string(), "v".to_string())];
     let key = |name: &str| Key::from_parts(name.to_string(), vec![Label::new("k", "v")]);
+    // wire identity of counter (kind, i): name and own labels
+    let ident = |kind: &str, i: usize| -> (String, Vec<(String, String)>) {
+        if siblings && kind == "ci" {
+            let mut l = own.clone();
+            if i == 1 {
+                l.push(("s".to_string(), "1".to_string()));
+            }
+            ("ci0".to_string(), l)
+        } else {
+            (format!("{}{}", kind, i), own.clone())
+        }
+    };
     // models
     let mut inc: [CounterModel; 2] = Default::default();
     let mut abs: [CounterModel; 2] = Default::default();
@@ -235,7 +253,8 @@ pub fn case_seq(bytes: &[u8], _s: &[u8], ctx: &mut Ctx) -> Result<(), Fail> {
                 mix_run_last = Some(v);
             }
             SStep::Inc(i, v) => {
-                rec.register_counter(&key(&format!("ci{}", i)), &META).increment(*v);
+                let (n, l) = ident("ci", *i);
+                rec.register_counter(&Key::from_parts(n, l.iter().map(|(a, b)| Label::new(a.clone(), b.clone())).collect::<Vec<_>>()), &META).increment(*v);
                 let m = &mut inc[*i];
                 m.registered = true;
                 m.pending = m.pending.wrapping_add(*v);
@@ -281,8 +300,9 @@ pub fn case_seq(bytes: &[u8], _s: &[u8], ctx: &mut Ctx) -> Result<(), Fail> {
                 let mut accounted = 0usize;
                 for (kind, models) in [("ci", &mut inc), ("ca", &mut abs)] {
                     for (i, m) in models.iter_mut().enumerate() {
-                        let name = format!("{}{}", kind, i);
-                        let got = of(c, &msgs, &name);
+                        let (name, own) = ident(kind, i);
+                        let want_tags = expected_tags(c, &own);
+                        let got: Vec<&DsdMessage> = of(c, &msgs, &name).into_iter().filter(|m| !siblings || kind != "ci" || m.tags == want_tags).collect();
                         accounted += got.len();
                         if !m.registered {
                             ensure!(got.is_empty(), "message-for-unregistered-counter", "{} never registered but sent", name);
